@@ -3,7 +3,12 @@
 
 use std::sync::OnceLock;
 
-pub const CORPUS_DIR: &str = "/repo/tests/libsml-testing";
+/// the repository under test (its working tree is what the harness is built against); VERIF_REPO is only
+/// set by tooling that evaluates patches on a scratch copy
+pub fn corpus_dir() -> String {
+    let repo = std::env::var("VERIF_REPO").unwrap_or_else(|_| "/repo".to_string());
+    format!("{}/tests/libsml-testing", repo)
+}
 
 static FILES: OnceLock<Vec<(String, Vec<u8>)>> = OnceLock::new();
 static PAYLOADS: OnceLock<Vec<Vec<u8>>> = OnceLock::new();
@@ -12,7 +17,7 @@ static PAYLOADS: OnceLock<Vec<Vec<u8>>> = OnceLock::new();
 pub fn files() -> &'static Vec<(String, Vec<u8>)> {
     FILES.get_or_init(|| {
         let mut v = Vec::new();
-        if let Ok(rd) = std::fs::read_dir(CORPUS_DIR) {
+        if let Ok(rd) = std::fs::read_dir(corpus_dir()) {
             let mut names: Vec<_> = rd.filter_map(|e| e.ok()).map(|e| e.path()).collect();
             names.sort();
             for p in names {
